@@ -62,10 +62,21 @@ pub struct Scripted {
     pub log: Arc<Mutex<Log>>,
     /// the transport accepts at most this many bytes per write call (0 = everything offered)
     max_write: usize,
+    /// writes fail with ConnectionReset once this many bytes have been accepted (0 = never)
+    fail_writes_after: usize,
 }
 
 thread_local! {
     static SHORT_WRITE: std::cell::Cell<usize> = const { std::cell::Cell::new(0) };
+}
+
+thread_local! {
+    static FAIL_WRITES_AFTER: std::cell::Cell<usize> = const { std::cell::Cell::new(0) };
+}
+
+/// Scripted transports created on this thread from now on fail their writes once `n` bytes were accepted (0 = never).
+pub fn fail_writes_after(n: usize) {
+    FAIL_WRITES_AFTER.with(|c| c.set(n));
 }
 
 /// While the guard lives, scripted transports created on this thread accept at most `n` bytes per write (0 = all).
@@ -74,6 +85,11 @@ pub struct ShortWriteGuard;
 pub fn short_writes(n: usize) -> ShortWriteGuard {
     SHORT_WRITE.with(|c| c.set(n));
     ShortWriteGuard
+}
+
+/// The limit currently in force on this thread (0 = none); other transports of the harness honour it too.
+pub fn short_write_limit() -> usize {
+    SHORT_WRITE.with(|c| c.get())
 }
 
 impl Drop for ShortWriteGuard {
@@ -92,6 +108,7 @@ impl Scripted {
                 off: 0,
                 log: log.clone(),
                 max_write: SHORT_WRITE.with(|c| c.get()),
+                fail_writes_after: FAIL_WRITES_AFTER.with(|c| c.get()),
             },
             log,
         )
@@ -212,7 +229,11 @@ impl Write for Scripted {
     fn write(&mut self, buf: &[u8]) -> io::Result<usize> {
         let mut log = self.log.lock().unwrap();
         let served = log.served;
+        if self.fail_writes_after > 0 && log.written.len() >= self.fail_writes_after {
+            return Err(io::Error::new(io::ErrorKind::ConnectionReset, "harness: the peer reset the connection while the request was being written"));
+        }
         let n = if self.max_write > 0 { buf.len().min(self.max_write) } else { buf.len() };
+        let n = if self.fail_writes_after > 0 { n.min(self.fail_writes_after - log.written.len()).max(1) } else { n };
         log.writes.push((served, n));
         log.written.extend_from_slice(&buf[..n]);
         Ok(n)
